@@ -91,27 +91,33 @@ Definition component_ok (s : text) : bool :=
   | [a; b; c] => (a <? 50) || ((a =? 50) && ((b <? 53) || ((b =? 53) && (c <=? 53))))
   | _ => false
   end.
+Fixpoint strip_pre (p s : text) : option text :=
+  match p, s with
+  | [], _ => Some s
+  | a :: p', b :: s' => if a =? b then strip_pre p' s' else None
+  | _ :: _, [] => None
+  end.
+Definition strip_last (c : Z) (s : text) : option text :=
+  match rev s with l :: m => if l =? c then Some (rev m) else None | [] => None end.
+(* s = pre ++ body ++ [post] *)
 Definition strip_both (pre : text) (post : Z) (s : text) : option text :=
-  (fix go (p s : text) : option text :=
-     match p, s with
-     | [], _ => match rev s with l :: m => if l =? post then Some (rev m) else None | [] => None end
-     | a :: p', b :: s' => if a =? b then go p' s' else None
-     | _ :: _, [] => None
-     end) pre s.
-Definition color_ok (s : text) : bool :=
+  match strip_pre pre s with Some r => strip_last post r | None => None end.
+(* the colour forms; `comp` judges one rgb()/rgba() component *)
+Definition color_form (comp : text -> bool) (s : text) : bool :=
   one_of s ttml_named_colors ||
   match s with
   | 35 :: h => forallb hexdigit h && ((Z.of_nat (length h) =? 6) || (Z.of_nat (length h) =? 8))
   | _ => false
   end ||
   match strip_both (T "rgb(") 41 s with
-  | Some body => match fields 44 body with [r; g; b] => forallb component_ok [r; g; b] | _ => false end
+  | Some body => match fields 44 body with [r; g; b] => forallb comp [r; g; b] | _ => false end
   | None => false
   end ||
   match strip_both (T "rgba(") 41 s with
-  | Some body => match fields 44 body with [r; g; b; a] => forallb component_ok [r; g; b; a] | _ => false end
+  | Some body => match fields 44 body with [r; g; b; a] => forallb comp [r; g; b; a] | _ => false end
   | None => false
   end.
+Definition color_ok (s : text) : bool := color_form component_ok s.
 
 (* TTML2 font families: item ("," item)*, item = spaces (quoted | unquoted) spaces.
    quoted: q (escape | any character but q and backslash)+ q, q the apostrophe or the quotation mark;
@@ -184,17 +190,15 @@ Definition documented (k : key) (v : json) : bool :=
       JSON value by truthiness *)
 Definition trigger_bool (k : key) (v : json) : bool := bool_key k && negb (is_bool v).
 (* 2. undocumented-values-accepted *)
-Definition has_proper_color_prefix (s : text) : bool :=
-  existsb (fun n => color_ok (firstn n s)) (seq 0 (length s)).
-Definition oversized_component (s : text) : bool :=
-  let big body := existsb (fun x => all_digits x && negb (component_ok x)) (fields 44 body) in
-  match strip_both (T "rgb(") 41 s, strip_both (T "rgba(") 41 s with
-  | Some b, _ => big b
-  | _, Some b => big b
-  | _, _ => false
+(* some prefix of s (s included) has the shape of a colour, components of any size *)
+Definition has_color_shaped_prefix (s : text) : bool :=
+  existsb (fun n => color_form all_digits (firstn n s)) (seq 0 (S (length s))).
+(* characters of the documented colour forms: hexadecimal digits after '#'; lower-case letters, digits, ( ) , otherwise *)
+Definition plain_color_text (s : text) : bool :=
+  match s with
+  | 35 :: h => forallb hexdigit h
+  | _ => forallb (fun c => lower_letter c || digit c || (c =? 40) || (c =? 41) || (c =? 44)) s
   end.
-Definition plain_color_char (c : Z) : bool :=
-  lower_letter c || digit c || ((65 <=? c) && (c <=? 70)) || (c =? 35) || (c =? 40) || (c =? 41) || (c =? 44).
 Definition trigger_lenient (k : key) (v : json) : bool :=
   match k, v with
   | KLogLevel, (JInt _ | JBool _) => true
@@ -213,7 +217,7 @@ Definition trigger_lenient (k : key) (v : json) : bool :=
   | KMaxRowCount, JStr s => negb (text_eqb s (T "MNR")) && ci_eq s (T "MNR")
   | KSafeArea, (JBool _ | JFloat _ _ | JStr _) => true
   | (KColor | KBgColor), JStr s =>
-      negb (forallb plain_color_char s) || has_proper_color_prefix s || oversized_component s
+      negb (plain_color_text s) || (negb (color_ok s) && has_color_shaped_prefix s)
   | KFontStack, JStr s => negb (fonts_ok s)
   | _, _ => false
   end.
@@ -283,6 +287,12 @@ Definition section_has_rejected (sec : string) (cfg : option json) : bool :=
                          | None | Some JNull => false
                          | Some v => documented (snd nk) v && trigger_rejected (snd nk) v
                          end) (keys_of sec)
+  | _ => false
+  end.
+(* an explicit null: README says nothing about it (outside the colours), so S constrains neither outcome *)
+Definition section_has_null (sec : string) (cfg : option json) : bool :=
+  match section sec cfg with
+  | Some (JObj _ as o) => existsb (fun nk => match jget (fst nk) o with Some JNull => true | _ => false end) (keys_of sec)
   | _ => false
   end.
 Definition spec_known_filter (n : text) : bool := text_eqb n (T "lcd").
@@ -408,7 +418,7 @@ Definition spec_case (strict : bool) (a : argv) (i : inline_src) (f : file_src) 
              | Some r, Some w =>
                  negb (writable w) ||
                  match cfg with Some (JObj _) | None | Some JNull => false | Some _ => true end ||
-                 existsb (fun s => negb (section_status s cfg =? 0) || (negb strict && section_has_rejected s cfg))
+                 existsb (fun s => negb (section_status s cfg =? 0) || section_has_null s cfg || (negb strict && section_has_rejected s cfg))
                          (sections_in_use r w (o_filters o))
              | _, _ => true
              end)
